@@ -71,7 +71,8 @@ def get_p(data, input_index, axis, axis_index, interval):
               axis, axis_index)
 
     obsP = interval.within(obs)
-    obsP = np.ma.filled(obsP, fill_value=np.nan)
+    # Convert to float before filling: a boolean array cannot hold NaN (a masked entry would become True)
+    obsP = np.ma.filled(np.ma.asarray(obsP).astype(float), fill_value=np.nan)
     p = p1 - p0  # Prob of obs within range
     return [obsP, p]
 
